@@ -11,6 +11,7 @@ from ..domain import (CONFIG, CONST, ENUM, IDENT, JSONREPR, NONFINITE, NUM, PYRE
                       is_esc)
 from ..astutil import Locals, local_names
 from ..pyindex import dotted
+from .c05_sites import SiteNames
 
 ALWAYS_OK = {CONST, ENUM, NUM, IDENT, WORD, CONFIG}
 CODE_ONLY = {PYREPR, JSONREPR, REPR_OF_ESC, "REPR_OF_ESC_T"}
@@ -109,18 +110,24 @@ def run(rep: Report, ctx: Any) -> str:
     inadequate: dict[tuple[str, str], dict[str, Any]] = {}
     unreached = 0
     int_enum_guard = _int_enum_guard(ix, it)
+    sites = SiteNames(ctx.jinja)
+    renamed = 0
     for ek, e in sorted(ji.emissions.items(), key=lambda kv: (kv[1].template, kv[1].macro, kv[1].expr, kv[1].ordinal, kv[1].state)):
-        key = f"{e.template}::{e.macro}::{e.expr}#{e.ordinal}@{e.kind}<{e.hole}>"
         where = f"{PKG}/templates/{e.template}:{e.line}"
         if not e.labels:
             unreached += 1
             continue
+        # a hole that prints a field of a macro parameter is named where its callers name the object (c05_sites): the finding does not
+        # move when the line is extracted into a macro, inlined, or moved to an imported template
+        keys = [f"{t}::{m}::{x}#{e.ordinal}@{e.kind}<{h}>" for t, m, x, h in sites.names(e.template, e.macro, e.expr, e.hole)]
+        renamed += keys != [f"{e.template}::{e.macro}::{e.expr}#{e.ordinal}@{e.kind}<{e.hole}>"]
         if e.kind in ("INERT",):
-            rep.ok("R05.1", key, sorted(e.labels), "inert context", nontrivial=False)
+            for key in keys:
+                rep.ok("R05.1", key, sorted(e.labels), "inert context", nontrivial=False)
             continue
         bad: set[str] = set()
         brk = breaking_for(e)
-        if "REPR_OF_ESC_T" in e.labels:
+        for key in keys if "REPR_OF_ESC_T" in e.labels else ():
             rep.fail("R05.4", key, "a template applies %r/repr to text that was already escaped: the emitted literal "
                                    "differs from the document's text (e.g. a wire key no longer matches)", where=where,
                      lhs=sorted(e.labels), rhs="no double escaping")
@@ -155,14 +162,16 @@ def run(rep: Report, ctx: Any) -> str:
                         d["sites"].append(f"{e.template}:{e.line} {e.expr}")
                 continue
             bad.add(l)
-        if bad:
-            rep.fail("R05.1", key,
-                     f"text labelled {sorted(bad)} reaches a {e.kind} context (state {e.state}) in hole `{e.hole}` "
-                     f"of `{{{{ {e.expr} }}}}` (value origin: {e.origin or 'n/a'})",
-                     where=where, lhs=sorted(e.labels), rhs=f"admitted in {e.kind}", labels=sorted(e.labels), state=e.state)
-        else:
-            rep.ok("R05.1", key, sorted(e.labels), f"admitted in {e.kind}")
+        for key in keys:
+            if bad:
+                rep.fail("R05.1", key,
+                         f"text labelled {sorted(bad)} reaches a {e.kind} context (state {e.state}) in hole `{e.hole}` "
+                         f"of `{{{{ {e.expr} }}}}` (written in {e.template}::{e.macro}; value origin: {e.origin or 'n/a'})",
+                         where=where, lhs=sorted(e.labels), rhs=f"admitted in {e.kind}", labels=sorted(e.labels), state=e.state)
+            else:
+                rep.ok("R05.1", key, sorted(e.labels), f"admitted in {e.kind}")
     rep.indexed["unreached_holes"] = unreached
+    rep.observe(f"{renamed} holes print a field of a macro parameter and are named at the macro's callers")
     for (fn, kind), d in sorted(inadequate.items()):
         rep.fail("R05.2", f"{fn}@{kind}",
                  f"escaped text reaches {kind} contexts but the escape does not neutralise {sorted(d['missing'])} "
@@ -199,6 +208,7 @@ def run(rep: Report, ctx: Any) -> str:
                   "repr() is applied to text that was already escaped: the run-time value differs from the document's",
                   where=where, lhs=sorted(pc.labels), rhs="no REPR_OF_ESC")
     _document_models_keep_text(rep, ix)
+    _rendered_text_is_written_as_rendered(rep, ix, it)
     rep.not_decided += ["nothing about run-time values is needed; residual trust is the admission table and the transfer functions"]
     return LEVEL
 
@@ -329,3 +339,165 @@ def _int_enum_guard(ix: Any, it: Any = None) -> bool:
     return all(any(is_int_test(src, pol) for src, pol in path) for path in conds)
 
 
+
+# ---- R05.8: what is written is what was rendered --------------------------------------------------------------------------------
+def _rendered_text_is_written_as_rendered(rep: Report, ix: Any, it: Any) -> None:
+    """R05.1 decides the lexical context of every hole in the text a template *renders*.  That is a statement about the generated
+    file only if the file receives this text: every value of `Template.render(...)` is followed forward - through locals, conditional
+    expressions, parameters of package functions it is handed to, return values back to the callers - and may only be compared /
+    tested, dropped, or arrive as the data of a text write (`write_text`, `<file>.write`).  Any other use (a method of the text, an
+    operator, a slice, formatting, a call that is not a function of the package) makes the written text a function of the rendered
+    text that this check has not analysed: line splitting, re-joining, stripping, dedenting, re-encoding all move or remove characters
+    that the contexts were computed with."""
+    from .effects import bind_call, callee_of
+
+    rep.rule("R05.8", "the text a template renders reaches the file unchanged: every Template.render(...) value flows - through locals, "
+                      "conditional expressions, parameters of package functions and their return values - only into the data operand "
+                      "of a text write (write_text / <file>.write), a comparison or a truth test; no string method, operator, slice, "
+                      "formatting or foreign call is applied on the way (the lexical contexts of R05.1 are those of the rendered text)")
+    parents: dict[str, dict[int, ast.AST]] = {}
+
+    def parent_of(f: Any, n: ast.AST) -> "ast.AST | None":
+        tab = parents.get(f.qual)
+        if tab is None:
+            tab = {id(c): p for p in ast.walk(f.node) for c in ast.iter_child_nodes(p)}
+            parents[f.qual] = tab
+        return tab.get(id(n))
+
+    def own_names(f: Any, name: str) -> list[ast.Name]:
+        """loads of the local / parameter `name` in f, not inside nested functions that rebind it"""
+        return [n for n in ast.walk(f.node) if isinstance(n, ast.Name) and n.id == name and isinstance(n.ctx, ast.Load)]
+
+    call_sites: dict[str, list[tuple[Any, ast.Call]]] = {}
+
+    def callers_of(g: Any) -> list[tuple[Any, ast.Call]]:
+        if not call_sites:
+            for f in ix.all_functions:
+                for c in ast.walk(f.node):
+                    if isinstance(c, ast.Call):
+                        h = callee_of(ix, f, c)
+                        if h is not None:
+                            call_sites.setdefault(h.qual, []).append((f, c))
+            call_sites.setdefault("", [])
+        return call_sites.get(g.qual, [])
+
+    def bind_target(f: Any, tgt: ast.AST, path: tuple, seen: set, out: list, written: list, lost: list) -> None:
+        """tgt receives a value that holds the rendered text at `path` (() = is the text)"""
+        if isinstance(tgt, ast.Name):
+            for use in own_names(f, tgt.id):
+                follow(f, use, path, seen, out, written, lost)
+        elif isinstance(tgt, (ast.Tuple, ast.List)) and path and isinstance(path[0], int) and not any(isinstance(e, ast.Starred) for e in tgt.elts):
+            if path[0] < len(tgt.elts):
+                bind_target(f, tgt.elts[path[0]], path[1:], seen, out, written, lost)
+        elif path:
+            lost.append(f"{f.module.rel}:{getattr(tgt, 'lineno', 0)}")
+        else:
+            out.append((f"stored in {ast.unparse(tgt)[:60]}", f"{f.module.rel}:{getattr(tgt, 'lineno', 0)}"))
+
+    def follow(f: Any, n: ast.AST, path: tuple, seen: set, out: list, written: list, lost: list) -> None:
+        """n: an expression of f whose value is the rendered text (path == ()) or a tuple / iterable that holds it: path names the
+        position, an int per tuple index and '*' per iteration (`yield p, text` seen from the caller: ('*', 1))"""
+        if (f.qual, id(n), path) in seen or len(seen) > 600:
+            return
+        seen.add((f.qual, id(n), path))
+        p = parent_of(f, n)
+        at = f"{f.module.rel}:{getattr(n, 'lineno', f.node.lineno)}"
+        if p is None or isinstance(p, ast.Expr):
+            return
+        if isinstance(p, ast.keyword):
+            p = parent_of(f, p)
+        if isinstance(p, ast.Tuple) and isinstance(p.ctx, ast.Load) and not any(isinstance(e, ast.Starred) for e in p.elts):
+            follow(f, p, (next(i for i, e in enumerate(p.elts) if e is n), *path), seen, out, written, lost)
+            return
+        if isinstance(p, (ast.Yield, ast.Return)):
+            sub = ("*", *path) if isinstance(p, ast.Yield) else path
+            for g, c in callers_of(f):
+                follow(g, c, sub, seen, out, written, lost)
+            return
+        if isinstance(p, (ast.For, ast.comprehension)) and p.iter is n:
+            if path and path[0] == "*":
+                bind_target(f, p.target, path[1:], seen, out, written, lost)
+            elif path:
+                lost.append(at)
+            else:
+                out.append(("iterated character by character", at))
+            return
+        if isinstance(p, (ast.Assign, ast.AnnAssign, ast.NamedExpr)) and getattr(p, "value", None) is n:
+            for t in (p.targets if isinstance(p, ast.Assign) else [p.target]):
+                bind_target(f, t, path, seen, out, written, lost)
+            if isinstance(p, ast.NamedExpr):
+                follow(f, p, path, seen, out, written, lost)
+            return
+        if isinstance(p, ast.IfExp):
+            if n is not p.test:
+                follow(f, p, path, seen, out, written, lost)
+            return
+        if isinstance(p, ast.BoolOp):
+            follow(f, p, path, seen, out, written, lost)      # `text or ""` hands the operand on
+            return
+        if isinstance(p, (ast.Compare, ast.If, ast.While, ast.Assert)) or (isinstance(p, ast.UnaryOp) and isinstance(p.op, ast.Not)):
+            return          # tested, not transformed
+        if isinstance(p, ast.Call) and n is not p.func:
+            g = callee_of(ix, f, p)
+            if g is not None:
+                bound = bind_call(ix, f, p, g)
+                names = [k for k, v in (bound or {}).items() if v is n]
+                a = g.node.args
+                if not names or (a.vararg and names[0] == a.vararg.arg) or (a.kwarg and names[0] == a.kwarg.arg):
+                    (lost if path else out).append(at if path else (f"handed to {g.name}() in a way that cannot be followed", at))
+                    return
+                for use in own_names(g, names[0]):
+                    follow(g, use, path, seen, out, written, lost)
+                return
+            if not path:
+                if isinstance(p.func, ast.Attribute) and p.func.attr in ("write_text", "write"):
+                    data = p.args[0] if p.args else next((k.value for k in p.keywords if k.arg in ("data", "s")), None)
+                    if data is n:
+                        written.append(at)
+                        return
+                if isinstance(p.func, ast.Name) and p.func.id == "str" and len(p.args) == 1 and not p.keywords:
+                    follow(f, p, path, seen, out, written, lost)
+                    return
+                out.append((f"passed to {ast.unparse(p.func)[:60]}()", at))
+                return
+        if isinstance(p, ast.Subscript) and p.value is n and path and isinstance(path[0], int) and isinstance(p.slice, ast.Constant):
+            if p.slice.value == path[0]:
+                follow(f, p, path[1:], seen, out, written, lost)
+            return
+        if path:
+            lost.append(at)       # a collection that holds the text goes somewhere this rule does not follow: undecided, not a violation
+            return
+        if isinstance(p, ast.Starred):
+            out.append((f"unpacked with * in {ast.unparse(p)[:60]}", at))
+        elif isinstance(p, ast.Attribute):
+            out.append((f"`.{p.attr}` of the rendered text", at))
+        else:
+            out.append((f"{type(p).__name__} `{ast.unparse(p)[:70]}`", at))
+
+    followed: set[str] = set()
+    for f in ix.all_functions:
+        for c in ast.walk(f.node):
+            if not (isinstance(c, ast.Call) and isinstance(c.func, ast.Attribute) and c.func.attr == "render"):
+                continue
+            recv = it.node_av.get(id(c.func.value))
+            if recv is None or "jinja2.Template" not in recv.types:
+                continue
+            if any(g is not f and g.parent is f and g.node.lineno <= c.lineno <= (g.node.end_lineno or 0) for g in ix.all_functions):
+                continue    # belongs to a nested function, visited as such
+            names = sorted(x for x in (recv.consts or ()) if isinstance(x, str))
+            followed |= set(names) or {f"{f.qual}:{c.lineno}"}
+            out: list[tuple[str, str]] = []
+            written: list[str] = []
+            lost: list[str] = []
+            follow(f, c, (), set(), out, written, lost)
+            if lost and not out:
+                rep.observe(f"R05.8: the text rendered at {f.module.rel}:{c.lineno} enters a collection that is not followed further ({sorted(set(lost))[:3]})")
+            for tn in names or [f"<template of {f.qual.replace(PKG + '.', '')}>"]:
+                rep.check(not out, "R05.8", f"{tn}::rendered-text-written-as-rendered",
+                          "the rendered text is changed before it is written (" + "; ".join(f"{w} at {a}" for w, a in out[:4]) + "): the generated "
+                          "file is not the text whose holes R05.1 placed in their lexical contexts - a transformation that moves, removes or "
+                          "splits at characters of document text (line splitting also splits at U+2028, U+0085, FF, VT ... inside string "
+                          "literals) can turn data into code or break the file",
+                          where=out[0][1] if out else f"{f.module.rel}:{c.lineno}",
+                          lhs=[w for w, _ in out] or f"written at {sorted(set(written))[:3]}", rhs="render(...) value is the data of the write")
+    rep.floor("rendered_templates_followed", len(followed), 8)
